@@ -99,7 +99,7 @@ func (w *World) boundedC14(id string, opts *RunOpts, ex *Extra) {
 		}
 	}
 	ex.Coverage["bounded_standins"] = []interface{}{map[string]interface{}{
-		"function": "internal/x/text:(*Caser).Identifierize", "label": "BOUNDED (not a proof)",
+		"function": "internal/x/text:(*Caser).Identifierize", "label": "BOUNDED (not a proof; the same posts are proved without bound by the sequence-mode contracts of internal/x/text — this run searches the real code for a concrete failing input)",
 		"bound":  fmt.Sprintf("all strings of length 0..%d over a 14-rune alphabet (a B 7 中 - é É space _ * b ß ² ٣) covering lower, upper, lower without upper-case form, decimal digits, other numerals, caseless letters, delimiters, single- and multi-byte, x 3 capitalization lists", maxLen),
 		"posts":  "result non-empty, valid Go identifier (go/token), first rune upper-case (exported), no underscore",
 		"inputs": total, "failures": bad, "command": cmd,
